@@ -30,6 +30,8 @@ def build(ctx, tier="quick"):
     s1 = lm.custom("'v1'", ["'sad'", "'Hello'", "'x y'", "'it_s'", "'1'"], "STR")
     s2 = lm.custom("'v2'", ["'ok'", "'World'", "'y z'", "'v_s'", "'2'"], "STR")
     s3 = lm.custom("'v3'", ["'happy'", "'Again'", "'z w'", "'w_s'", "'3'"], "STR")
+    nm_dq = lm.custom('"n"', ['"mood"', '"v1.status"', '"Box T"', '"a.b.c"'], "DQ")
+    sc_dq = lm.custom('"schema"', ['"sch"', '"app"', '"My Schema"', '"x.1"'], "DQ")
     who = pl("who", ["joe", "admin", "Owner_1", "u_1", "data_owner", "Usr2"])
     fin = s.new()
     s.acc.add(fin)
@@ -43,6 +45,11 @@ def build(ctx, tier="quick"):
         d = s.edge(start, sc, Tag(kind, False, role_s))
         d = s.edge(d, P["."], Tag(kind, False))
         s.edge(d, nm, Tag(kind, False, role_n), out)
+        # double-quoted names, also with a dot / a blank inside: schema and name are tokens, never a textual split of the glued name
+        s.edge(start, nm_dq, Tag(kind, False, role_n), out)
+        d = s.edge(start, sc_dq, Tag(kind, False, role_s))
+        d = s.edge(d, P["."], Tag(kind, False))
+        s.edge(d, nm_dq, Tag(kind, False, role_n), out)
         return out
     # ---- CREATE TYPE [s.]n AS ENUM ( 'a' [, 'b' [, 'c']] )
     t0 = s.words(c, "ent:TYPE_ENUM", [("KW", "TYPE")])
